@@ -120,8 +120,8 @@ func runC16(c *Ctx) {
 			c.Undecided("R16.2", d, "Scan / Reset / NewLexer not found in the generated lexer")
 			continue
 		}
-		W := recvFieldStores(scan)
-		R := recvFieldStores(reset)
+		W := recvFieldStoresDeep(scan, map[*ssa.Function]bool{})
+		R := recvFieldStoresDeep(reset, map[*ssa.Function]bool{})
 		init := constructorInit(newl, "Lexer")
 		ws := make([]string, 0, len(W))
 		for f := range W {
@@ -135,8 +135,12 @@ func runC16(c *Ctx) {
 		for _, b := range scan.Blocks {
 			for _, in := range b.Instrs {
 				if call, ok := in.(*ssa.Call); ok {
-					for _, a := range call.Call.Args {
+					for k, a := range call.Call.Args {
 						if a == ssa.Value(scan.Params[0]) {
+							// a method of the lexer called on the same receiver is followed (recvFieldStoresDeep); anything else is not
+							if f := call.Call.StaticCallee(); f != nil && k == 0 && f.Signature.Recv() != nil && f.Blocks != nil {
+								continue
+							}
 							c.Undecided("R16.2", d+": Scan hands the lexer to "+call.Call.Value.Name(), "the set of mutated fields must include the callee's")
 						}
 					}
@@ -419,4 +423,34 @@ func checkPopNFresh(c *Ctx, p *Prog, rule, dir string) {
 	if n == 0 {
 		c.Undecided(rule, dir+" stack.popN", "no return found")
 	}
+}
+
+// recvFieldStoresDeep: the receiver's fields stored by fn or by the methods it calls on the same receiver.
+func recvFieldStoresDeep(fn *ssa.Function, seen map[*ssa.Function]bool) map[string]ssa.Value {
+	out := map[string]ssa.Value{}
+	if fn == nil || seen[fn] || fn.Blocks == nil {
+		return out
+	}
+	seen[fn] = true
+	for k, v := range recvFieldStores(fn) {
+		out[k] = v
+	}
+	for _, b := range fn.Blocks {
+		for _, in := range b.Instrs {
+			call, ok := in.(*ssa.Call)
+			if !ok {
+				continue
+			}
+			f := call.Call.StaticCallee()
+			if f == nil || f.Signature.Recv() == nil || len(call.Call.Args) == 0 || len(fn.Params) == 0 || call.Call.Args[0] != ssa.Value(fn.Params[0]) {
+				continue
+			}
+			for k, v := range recvFieldStoresDeep(f, seen) {
+				if _, has := out[k]; !has {
+					out[k] = v
+				}
+			}
+		}
+	}
+	return out
 }
